@@ -13,6 +13,10 @@ Real MIR of every AsValue adapter of value.rs / yaml.rs / json.rs (MIR dump with
   * the comparison kernel (C09) gives the same verdict whether a non-negative
     integer arrives as Int or as UInt - the one place representations
     legitimately differ.
+  * representations: for rules with dotted / indexed / nested keys one witness
+    document per path of the real solver + Object::find MIR (solver-derived) is
+    evaluated natively as a hand-written Object, as serde_yaml text and as
+    serde_json text: the three verdicts agree with each other and with the path.
 Outside the claim: the hash-map / index-map lookups themselves, serde's number
 parsing, user-written Document implementations.
 """
@@ -115,9 +119,228 @@ def main():
                       'crate sources in the cargo registry', 'HashMap / IndexMap / Mapping lookups, and user Document implementations, are outside the claim']
     ck.functions |= {'value::<impl AsValue for T>::as_value (all primitive impls)', 'yaml::<impl AsValue for Yaml>::as_value', 'json::<impl AsValue for Json>::as_value',
                      'value::<impl AsValue for Option<V>>::as_value', 'solver::solve_expression (comparison arm)'}
-    ck.run_units([('prims',), ('serde',), ('containers',), ('kernel',), ('overrides',)], run_unit, jobs=5)
+    import templates
+    S_, M_, K_, L_ = templates.S, templates.M, templates.K, templates.L
+    reps = [(name, templates.render(rule)) for fam, name, rule in templates.select(ck.tier, ck.seed) if fam in ('dotted', 'nested') and '&n.' not in name and 'rows' not in name]
+    # path segments that look like numbers, and indices at depth: what a JSON pointer / another resolver would read differently
+    for nm, rule in (('tags.1', templates.single('tags.1', S_('a'))), ('n.0.f', templates.single('n.0.f', S_('a'))),
+                     ('n.f[1]', templates.single('n.f[1]', S_('a'))), ('not n.1', {'idents': {'A': M_((K_('n.1'), S_('a')))}, 'cond': ('not', ('id', 'A'))})):
+        reps.append(('numeric-segment/' + nm, templates.render(rule)))
+    ck.run_units([('prims',), ('serde',), ('containers',), ('kernel',), ('overrides',)] + [('representations', nm, y) for nm, y in reps], run_unit, jobs=8)
     ck.finish('every AsValue adapter executed from MIR on symbolic inputs; YAML and JSON number adapters against one abstract number; '
               'comparison kernel Int vs UInt')
+
+
+def plain(docj):
+    """bridge document encoding -> a python value that JSON / YAML text can carry, or raise ValueError"""
+    import math, struct
+    if docj is None or isinstance(docj, bool):
+        return docj
+    if isinstance(docj, list):
+        return [plain(x) for x in docj]
+    if '$obj' in docj:
+        return {bytes(k).decode('utf-8'): plain(v) for k, v in docj['$obj']}
+    if '$str' in docj:
+        return bytes(docj['$str']).decode('utf-8')
+    if '$i64' in docj:
+        return docj['$i64']
+    if '$u64' in docj:
+        return docj['$u64']
+    if '$f64' in docj:
+        f = struct.unpack('<d', struct.pack('<Q', docj['$f64']))[0]
+        if math.isnan(f) or math.isinf(f):
+            raise ValueError('not expressible in JSON')
+        return f
+    raise ValueError(docj)
+
+
+def string_cells(doc, out):
+    for present, cell in doc.cells.values():
+        cell_strings(cell, out)
+
+
+def cell_strings(cell, out):
+    if cell._s is not None:
+        out.append(cell._s)
+    if cell._arr is not None:
+        for el in cell._arr.elems:
+            cell_strings(el, out)
+    if cell._obj is not None:
+        string_cells(cell._obj, out)
+
+
+def representations_unit(ck, name, yaml):
+    """the same logical document as a hand-written Object, as serde_yaml text and as serde_json text: one witness per
+    path of the real solver / Object::find MIR over a symbolic object-mode document (z3 gives the witness), evaluated
+    natively in the three representations; every verdict must be the one the path returns"""
+    import json as _json
+    from treelib import TreeRunner, safe
+    br = ck.bridge()
+    r = br.call(cmd='load', yaml=yaml, opts=None)
+    if not r.get('ok'):
+        return
+    tr = TreeRunner(ck, Bounds(str_cap=2, arr_cap=2, depth=3, as_object=True), as_object=True)
+    tr.uni.numstr_cap = 2
+    v = tr.evaluate(r)
+    # arrays the paths only looked at from outside get their elements, so that a witness can have something in them
+    arrays = []
+
+    def populate(doc, depth=0, under=()):
+        for present, cell in list(doc.cells.values()):
+            populate_cell(cell, depth, under + (present,))
+
+    def populate_cell(cell, depth, under=()):
+        if K_ARRAY in cell.kinds and depth < 2:
+            arr = cell.arr
+            arrays.append((cell, arr, under))
+            for el in arr.elems:
+                if K_STRING in el.kinds:
+                    el.s
+        if cell._obj is not None:
+            populate(cell._obj, depth + 1, under + (cell.kind == K_OBJECT,))
+    populate(tr.doc)
+    strs = []
+    string_cells(tr.doc, strs)
+    printable = []
+    for s_ in strs:
+        for b in s_.bytes:
+            printable.append(z3.And(z3.UGE(b, 0x20), z3.ULE(b, 0x7e), b != 0x22, b != 0x5c))
+    # a second witness per path in which every string of the document is one of the rule's own needles where the path
+    # allows it (a resolver that reads another element / another level then finds something that matches)
+    needles = []
+    from treelib import any_node
+    for tree in [r['expr']] + [t for _, t in r['idents']]:
+        any_node(tree, lambda j: j.get('t') == 'Search' and 'v' in j['s'] and needles.append(bytes(j['s']['v'])))
+    alike = []
+    if needles:
+        nd = needles[0]
+        for s_ in strs:
+            if len(s_.bytes) >= len(nd):
+                alike.append(z3bool(S.s_eq(s_, nd)))
+        for cell, arr, _under in arrays:
+            alike.append(arr.length == arr.cap)
+            for el in arr.elems:
+                if K_STRING in el.kinds:
+                    alike.append(el.kind == K_STRING)
+    # witnesses: for each value the rule can return, documents of different *shapes* (which cells are present and of
+    # which kind; the summarised solver returns one merged term, so the shapes are enumerated by blocking), each once as
+    # the solver gives it and once with its strings pulled towards the rule's needle
+    shape_vars = []
+
+    def shapes(doc):
+        for present, cell in doc.cells.values():
+            shape_vars.append(present)
+            cell_shape(cell)
+
+    def cell_shape(cell):
+        shape_vars.append(cell.kind)
+        if cell._arr is not None:
+            shape_vars.append(cell._arr.length)
+            for el in cell._arr.elems:
+                cell_shape(el)
+        if cell._obj is not None:
+            shapes(cell._obj)
+    shapes(tr.doc)
+    n = 0
+    per_value = 4 if ck.tier == 'quick' else 10
+    models = []
+    for val in (0, 1, 2):
+        blocked = []
+        for k_ in range(per_value):
+            rr, model = ck.solve(tr.uni, v['res'] == z3.BitVecVal(val, 64), *printable, *blocked)
+            if rr != 'sat':
+                break
+            models.append((val, k_, model, False))
+            sig = [sv == model.eval(sv, model_completion=True) for sv in shape_vars]
+            blocked.append(z3.Not(z3.And(*sig)) if sig else z3.BoolVal(False))
+            if alike:
+                # the same shape, strings as close to the needle as the value allows (greedy)
+                keep = list(sig)
+                for c in alike:
+                    r2, _ = ck.solve(tr.uni, v['res'] == z3.BitVecVal(val, 64), *printable, *keep, c)
+                    if r2 == 'sat':
+                        keep.append(c)
+                r3, m3 = ck.solve(tr.uni, v['res'] == z3.BitVecVal(val, 64), *printable, *keep)
+                if r3 == 'sat':
+                    models.append((val, k_, m3, True))
+    # and the shapes in which an array is as full as it can be and holds the needle, whatever the value
+    if alike:
+        keep = []
+        for c in reversed(alike):
+            r2, _ = ck.solve(tr.uni, *printable, *keep, c)
+            if r2 == 'sat':
+                keep.append(c)
+        r3, m3 = ck.solve(tr.uni, *printable, *keep)
+        if r3 == 'sat':
+            models.append((9, 0, m3, True))
+    # one witness per array the rule's paths can reach: the array is there, full, and every element is the needle
+    for ai, (cell, arr, under) in enumerate(arrays):
+        cs = list(under) + [cell.kind == K_ARRAY, arr.length == arr.cap]
+        for el in arr.elems:
+            if K_STRING in el.kinds and needles and len(el.s.bytes) >= len(needles[0]):
+                cs += [el.kind == K_STRING, z3bool(S.s_eq(el.s, needles[0]))]
+        r3, m3 = ck.solve(tr.uni, *printable, *cs)
+        if r3 == 'sat':
+            models.append((8, ai, m3, True))
+    for val, i, model, extra in models:
+        ck.obligations += 1
+        docj = tr.render_doc(model)
+        try:
+            text = _json.dumps(plain(docj))
+        except (ValueError, UnicodeDecodeError):
+            ck.discharged += 1
+            continue
+        want = model.eval(v['res'], model_completion=True).as_long() == 0
+        n_obj = br.call(cmd='eval', yaml=yaml, opts=None, doc=docj, mode='object')
+        n_yaml = br.call(cmd='eval_yaml', yaml=yaml, opts=None, doc_text=text)
+        n_json = br.call(cmd='eval_yaml', yaml=yaml, opts=None, doc_text=text, json=True)
+        n += 1
+        got = {'object': n_obj.get('verdict'), 'yaml': n_yaml.get('verdict'), 'json': n_json.get('verdict')}
+        if len(set(got.values())) == 1 and got['object'] == want:
+            ck.discharged += 1
+            ck.replays_ok += 3
+            continue
+        path = ck.write_replay('representations_' + safe(name) + '_%d_%d%s' % (val, i, 'n' if extra else ''), {'rule': yaml, 'document': _json.loads(text), 'doc': docj, 'verdicts': got,
+                                                                             'mir_path_returns': bool(want), 'native': [n_obj, n_yaml, n_json]})
+        if len(set(got.values())) > 1:
+            ck.violations.append((path, '%s: the same document gives different verdicts depending on its representation: %s on %s' % (name, got, text)))
+        else:
+            ck.inconclusive.append('%s: model did not reproduce: the executor says %s, every representation says %s (%s)' % (name, want, got['object'], path))
+    ck.extra['representation_witnesses'] = ck.extra.get('representation_witnesses', 0) + n
+
+
+def prim_replay(ck, name, ty, candidates, mir_result):
+    """the executor says the adapter can leave the specification; replay natively (bridge `prim`) on the solver's value
+    and on the boundary values of the type: a violation is reported only for a value on which the real adapter does"""
+    import struct
+    br = ck.bridge()
+    for bits_ in candidates:
+        n = br.call(cmd='prim', ty=ty, bits=bits_)
+        if ty in INT_TYPES:
+            w, signed = INT_TYPES[ty]
+            v = bits_ & ((1 << w) - 1)
+            if signed and v >= 1 << (w - 1):
+                v -= 1 << w
+            exp = {'$i64': v} if signed else {'$u64': v}
+        elif ty == 'f32':
+            f = struct.unpack('<f', struct.pack('<I', bits_ & 0xffffffff))[0]
+            exp = {'$f64': struct.unpack('<Q', struct.pack('<d', f))[0]}
+        elif ty == 'f64':
+            exp = {'$f64': bits_}
+        else:
+            exp = bool(bits_)
+        got = n.get('value')
+        same = got == exp
+        if not same and isinstance(got, dict) and isinstance(exp, dict) and '$f64' in got and '$f64' in exp:
+            a, b = (struct.unpack('<d', struct.pack('<Q', t['$f64']))[0] for t in (got, exp))
+            same = a != a and b != b      # any NaN for a NaN
+        if not same:
+            p = ck.write_replay('prim_%s_%x' % (ty, bits_), {'type': ty, 'bits': bits_, 'native': n, 'expected': exp, 'mir_result': mir_result,
+                                                            'request': {'cmd': 'prim', 'ty': ty, 'bits': bits_}})
+            ck.replays_ok += 1
+            ck.violations.append((p, '%s: the %s with bits %#x becomes %s, its value is %s' % (name, ty, bits_, got, exp)))
+            return
+    ck.inconclusive.append('%s: the executor finds a deviation (%s) that does not reproduce natively' % (name, mir_result[:120]))
 
 
 def value_of(v):
@@ -131,6 +354,9 @@ def run_unit(ck, unit):
         # a container's Object impl that overrides find() would make that representation resolve keys differently
         import C10
         C10.run_unit(ck, ('overrides',))
+        return
+    if kind == 'representations':
+        representations_unit(ck, unit[1], unit[2])
         return
     prog = ck.program(FEATURES)
     uni = engine.Universe()
@@ -156,8 +382,8 @@ def run_unit(ck, unit):
                     if r == 'unsat':
                         ck.discharged += 1
                     else:
-                        p = ck.write_replay('prim_' + ty, {'type': ty, 'result': str(res[0].value), 'x': str(m.eval(x, model_completion=True))})
-                        ck.violations.append((p, '%s: %s value %s becomes %s' % (name, ty, m.eval(x, model_completion=True), res[0].value)))
+                        xv = m.eval(x, model_completion=True).as_long()
+                        prim_replay(ck, name, ty, [xv, 0, 1, (1 << bits) - 1, 1 << (bits - 1), (1 << (bits - 1)) - 1], str(res[0].value))
                 else:
                     ck.inconclusive.append(name + ': unexpected paths')
                 seen.add(ty)
@@ -175,7 +401,11 @@ def run_unit(ck, unit):
                 if r == 'unsat':
                     ck.discharged += 1
                 else:
-                    ck.violations.append((None, 'as_value(%s) does not preserve the value' % ty))
+                    import struct
+                    xb = m.eval(z3.fpToIEEEBV(x), model_completion=True).as_long()
+                    cands = [xb] + ([struct.unpack('<I', struct.pack('<f', c))[0] for c in (0.1, 0.3, 0.7, 1e-10, 16777217.0, 3.4028234e38, 1e-45, -0.1)] if ty == 'f32'
+                                    else [struct.unpack('<Q', struct.pack('<d', c))[0] for c in (0.1, 1e300, 5e-324, -0.0)])
+                    prim_replay(ck, 'as_value(%s)' % ty, ty, cands, str(res[0].value))
                 seen.add(ty)
             elif ty == 'bool':
                 b = z3.Bool('xb')
@@ -244,7 +474,28 @@ def run_unit(ck, unit):
                             z3.And(k == 1, z3.BoolVal(vn == 'Int'), (pl.v == num['i']) if vn == 'Int' else z3.BoolVal(False)),
                             z3.And(k == 2, z3.BoolVal(vn == 'Float'), (engine.to_fp(pl) == num['f']) if vn == 'Float' else z3.BoolVal(False)))
                 bad.append(z3.And(z3bool(r.cond()), z3.Not(exp)))
-            ck.obligation('%s number adapter: kind, value and signedness preserved' % tag, uni, z3.Or(*bad) if bad else False)
+            def on_num(model, tag=tag):
+                # replay: the model's number, then the boundary numbers, as YAML / JSON text through serde and the adapter
+                import struct
+                kk = model.eval(num['kind'], model_completion=True).as_long()
+                first = {0: str(model.eval(num['u'], model_completion=True).as_long()),
+                         1: str(norm_int(model.eval(num['i'], model_completion=True).as_long(), 'i64')), 2: '1.5'}[kk]
+                br_ = ck.bridge()
+                for text in [first, '0', '1', '-1', '9223372036854775807', '9223372036854775808', '18446744073709551615', '-9223372036854775808', '1.5', '-0.5']:
+                    n = br_.call(cmd='scalar_value', text=text, json=(tag == 'json'))
+                    if '.' in text:
+                        exp = {'$f64': struct.unpack('<Q', struct.pack('<d', float(text)))[0]}
+                    elif text.startswith('-'):
+                        exp = {'$i64': int(text)}
+                    else:
+                        exp = {'$u64': int(text)}
+                    if n.get('value') != exp:
+                        p_ = ck.write_replay('number_%s_%s' % (tag, text.replace('-', 'm').replace('.', '_')),
+                                             {'representation': tag, 'text': text, 'native': n, 'expected': exp, 'request': {'cmd': 'scalar_value', 'text': text, 'json': tag == 'json'}})
+                        ck.replays_ok += 1
+                        return ('violation', p_, 'the %s number %s reaches the engine as %s, it is %s' % (tag, text, n.get('value'), exp))
+                return ('spurious', 'the %s number adapter agrees natively on the model and on the boundary numbers' % tag)
+            ck.obligation('%s number adapter: kind, value and signedness preserved' % tag, uni, z3.Or(*bad) if bad else False, on_sat=on_num)
         # scalars
         for tag, f, en in (('yaml', fy, 'serde_yaml::Value'), ('json', fj, 'serde_json::Value')):
             vs = program.STD_ENUMS[en]
